@@ -284,12 +284,25 @@ def _broadcast_cases(s, tier):
                 else:
                     target.append((d, l, k))
             target += list(fs)
+            targets = [target]
+            if any(len(l) == 1 for d, l, k in own):
+                # ... or the target has ONE label there too, another one: nothing to replicate, the array's axis travels with its data
+                other = {"i": 555, "f": 55.5, "O": "other"}
+                targets.append([(d, [other[k]], k) if len(l) == 1 else (d, l, k) for d, l, k in own] + list(fs))
+            for target in targets:
+              for c_ in _orders_of(target, tier, s):
+                yield c_
+
+
+def _orders_of(target, tier, s):
             orders = list(itertools.permutations(range(len(target))))
             if len(orders) > 24:
                 orders = orders[::7] if tier == "quick" else orders[::2]
             for c, od in enumerate(orders):
                 tg = [list(target[i]) for i in od]
                 yield {"a": s, "bc": tg, "form": ["axes", "dimarray", "odict"][c % 3]}
+            return
+            yield   # (generator)
 
 
 def _bcarrays_cases(tier):
@@ -407,6 +420,9 @@ def _mk_target(tg, form):
 def _ref_broadcast(ra, tg):
     dims = [n for n, l, k in tg]
     labels = [list(l) for n, l, k in tg]
+    for i, d in enumerate(dims):
+        if d in ra.dims and len(labels[i]) == 1 and len(ra.labels[ra.dims.index(d)]) == 1:
+            labels[i] = list(ra.labels[ra.dims.index(d)])      # one label against one label: the array keeps its own
     out = np.empty([len(l) for l in labels], dtype=ra.vals.dtype)
     for pos in R.all_positions(out.shape):
         src = []
